@@ -223,7 +223,23 @@ def extra_obligations(mods, tier, seed):
             d.mkdir()
             # the two platform families render their own ini: alternate between an atmelavr and an atmelmegaavr board
             b_ = board if flavour == 0 else mega_board
-            PIO.write_project(d, "void setup(){}\nvoid loop(){}\n", "COM3", platform=PIO.BOARD_TO_PLATFORM[b_], board=b_, lib_deps=list(libs))
+            # what the ini requests is a function of the script, not of the machine: flavour 1 also runs with a PlatformIO home whose
+            # global library storage already holds directories named like the libraries
+            saved_env = {k_: os.environ.get(k_) for k_ in ("PLATFORMIO_CORE_DIR", "PLATFORMIO_HOME_DIR", "HOME")}
+            if flavour == 1:
+                home_ = scratch / f"home{len(ini_cache)}"
+                for lib_ in ("Servo", "LiquidCrystal", "LiquidCrystal_I2C"):
+                    (home_ / ".platformio" / "lib" / lib_).mkdir(parents=True, exist_ok=True)
+                    (home_ / "core" / "lib" / lib_).mkdir(parents=True, exist_ok=True)
+                os.environ.update({"HOME": str(home_), "PLATFORMIO_CORE_DIR": str(home_ / "core"), "PLATFORMIO_HOME_DIR": str(home_ / "core")})
+            try:
+                PIO.write_project(d, "void setup(){}\nvoid loop(){}\n", "COM3", platform=PIO.BOARD_TO_PLATFORM[b_], board=b_, lib_deps=list(libs))
+            finally:
+                for k_, v_ in saved_env.items():
+                    if v_ is None:
+                        os.environ.pop(k_, None)
+                    else:
+                        os.environ[k_] = v_
             cp = configparser.RawConfigParser()
             try:
                 cp.read(d / "platformio.ini", encoding="utf-8")
